@@ -275,6 +275,11 @@ def run_request(case):
     return "run %s %d %s" % (case["mode"], FUEL, " ".join(config_toks(case, case["mode"])))
 
 
+def soft_request(case):
+    """the same decimal configuration, rounded to binary64 and run by the kernel-evaluable F64 model"""
+    return "run r %d %s" % (FUEL, " ".join(config_toks(case, "x")))
+
+
 def drift_request(case):
     return "drift %d %s @ %s" % (FUEL, " ".join(config_toks(case, "f")), " ".join(config_toks(case, "x")))
 
